@@ -38,6 +38,8 @@ def run(ctx):
     ctx.do(rule_detect)
     from .hidden_state import rule_no_hidden_state
     ctx.do(rule_no_hidden_state, "C14.history-independence")
+    from .pitfalls import rule_loops_not_cut_short
+    ctx.do(rule_loops_not_cut_short, "C14.loops-complete")
 
 
 def iter_exact_calls(prog, cg, include_cha_unique=False):
@@ -111,7 +113,30 @@ def rule_strictness(ctx):
                           file=fi.module.relpath, line=call.lineno, function=fi.qualname,
                           expected="derived only from the caller's `interoperability` parameter (or False/omitted)", found=repr(pr))
                 break
-    run.extra["interoperability_sites"] = n
+    # calls whose callee cannot be resolved (a class held in an attribute: self.contained(...), self.type(...), cls(...)) name
+    # the switch by keyword: the same provenance requirement, decided on the keyword
+    m_ = 0
+    for fi in sorted(prog.functions.values(), key=lambda f: f.id):
+        if fi.module.relpath.startswith("stix2/test"):
+            continue
+        for call in cg.calls_in(fi):
+            kw = [k for k in call.keywords if k.arg == "interoperability"]
+            if not kw:
+                continue
+            if any(t.func is not None and t.kind in (EXACT, CHA) and "interoperability" in t.func.all_param_names() for t in cg.resolve(call, fi)):
+                continue          # judged above
+            m_ += 1
+            pr = flow_of(fi).prov(kw[0].value)
+            # kwargs.get('interoperability', False): the caller's own option read from its keyword dictionary
+            from_kwargs = isinstance(kw[0].value, ast.Call) and norm(kw[0].value.func).endswith(".get") and kw[0].value.args \
+                and isinstance(kw[0].value.args[0], ast.Constant) and kw[0].value.args[0].value == "interoperability"
+            ok = from_kwargs or ((pr.params <= {"interoperability"}) and not pr.selfattrs - {"interoperability"} and not pr.calls
+                                 and not pr.other and all(v is False for v in pr.consts))
+            run.check(ok, R, key(fi.module.relpath, fi.qualname, "keyword:interoperability#%d" % m_),
+                      "the relaxed-identifier switch is passed by keyword with a value that is not the caller's own `interoperability`: "
+                      "embedded content is validated leniently whatever the caller asked for", file=fi.module.relpath,
+                      line=call.lineno, function=fi.qualname, expected="interoperability=interoperability (or False)", found=norm(kw[0].value))
+    run.extra["interoperability_sites"] = n + m_
     run.floor(R, 8)
 
 
